@@ -97,9 +97,43 @@ func runSeq(cs *Case, or seqOracles) (w *World) {
 		defer twin.close()
 	}
 
+	// no observation between a failed transaction and the schema changes that directly follow
+	// it: the dump runs transactions of its own, and a pooled transaction object that came back
+	// from the failed one in a bad state would be healed by them before a drop + re-create
+	// under the same name could expose it
+	schemaStep := func(i int) bool {
+		if i < 0 || i >= len(cs.Steps) {
+			return false
+		}
+		switch cs.Steps[i].Kind {
+		case "dropcol", "createcol", "dropindex", "createindex", "dropsort", "createsort":
+			return true
+		}
+		return false
+	}
+	quietAfter := func(i int) bool {
+		// ... and none after the last schema step of such a chain if a transaction follows: that
+		// transaction is then the first one to use the re-created name (its own oracles judge it)
+		if i < 0 || i+1 >= len(cs.Steps) || !(schemaStep(i+1) || schemaStep(i)) {
+			return false
+		}
+		for j := i; j >= 0; j-- {
+			if t := cs.Steps[j].Txn; cs.Steps[j].Kind == "txn" && t != nil {
+				return t.Abort
+			}
+			if !schemaStep(j) {
+				return false
+			}
+		}
+		return false
+	}
 	check := func(step int) bool {
 		if w.viol != nil {
 			return false
+		}
+		if quietAfter(step) && twin == nil {
+			w.stats.probe("no-observation-between-failed-transaction-and-schema-change")
+			return true
 		}
 		if or.dump {
 			w.stats.Dumps++
